@@ -170,6 +170,9 @@ class AbstractTreeName(AbstractNameDefinition):
             trailer = par.parent
             if trailer.type == 'arglist':
                 trailer = trailer.parent
+            if trailer.type == 'error_node':
+                # An unclosed call, there is no proper trailer to infer.
+                return []
             if trailer.type != 'classdef':
                 if trailer.type == 'decorator':
                     value_set = context.infer_node(trailer.children[1])
